@@ -395,6 +395,8 @@ func c17(c *Ctx) {
 	}
 
 	// R5 kinds covered
+	c.Rule("R7", "E3 must-pass in loops", "truncate: every character the scan keeps is counted against the limit (range loop: each continuing iteration increments the counter; builder loop: an increment between any two writes)", 1)
+	ruleTruncateCounts(c, ix, "R7", "sdk/log")
 	c.Rule("R5", "E2 exhaustiveness", "applyValueLimits handles every log.Kind that can contain strings: String ↦ truncate(limit), Slice ↦ recursion, Map ↦ dedup + applyAttrLimits; other kinds unchanged", 3)
 	if fn := c.Fn(ix, "R5", "(*Record).applyValueLimits"); fn != nil {
 		g := ix.FG(fn)
